@@ -167,14 +167,49 @@ func (x *exec) arith(fr *frame, s *State, op token.Token, a, b string, t types.T
 			r = fmt.Sprintf("(mod %s %s)", a, new(big.Int).Lsh(big.NewInt(1), uint(k)).String())
 		} else if k, ok := maskBits(a); ok && !signed {
 			r = fmt.Sprintf("(mod %s %s)", b, new(big.Int).Lsh(big.NewInt(1), uint(k)).String())
+		} else if m, ok := andRun(a, b, signed); ok {
+			r = m
 		} else {
 			r = x.bitopInt("and", a, b, t, s)
 		}
 	case token.OR:
-		r = x.bitopInt("or", a, b, t, s)
+		// with a constant run of ones m: a|m == a - (a&m) + m
+		if m, ok := andRun(a, b, signed); ok {
+			o, c := a, b
+			if _, isC := new(big.Int).SetString(a, 10); isC {
+				o, c = b, a
+			}
+			r = fmt.Sprintf("(+ (- %s %s) %s)", o, m, c)
+		} else {
+			r = x.bitopInt("or", a, b, t, s)
+			if !signed {
+				// a|b == a+b when the operands occupy disjoint bit ranges split at some position k
+				var fs []string
+				for k := 1; k < bits; k++ {
+					p := new(big.Int).Lsh(big.NewInt(1), uint(k)).String()
+					fs = append(fs, Imp(And(fmt.Sprintf("(= (mod %s %s) 0)", a, p), fmt.Sprintf("(< %s %s)", b, p)), Eq(r, fmt.Sprintf("(+ %s %s)", a, b))))
+					fs = append(fs, Imp(And(fmt.Sprintf("(= (mod %s %s) 0)", b, p), fmt.Sprintf("(< %s %s)", a, p)), Eq(r, fmt.Sprintf("(+ %s %s)", a, b))))
+				}
+				x.assume(s, x.c.Define(x.c.Fresh("or.disjoint"), "Bool", And(fs...)))
+			}
+		}
 	case token.XOR:
-		r = x.bitopInt("xor", a, b, t, s)
+		if m, ok := andRun(a, b, signed); ok {
+			o, c := a, b
+			if _, isC := new(big.Int).SetString(a, 10); isC {
+				o, c = b, a
+			}
+			r = fmt.Sprintf("(+ (- %s (* 2 %s)) %s)", o, m, c)
+		} else {
+			r = x.bitopInt("xor", a, b, t, s)
+		}
 	case token.AND_NOT:
+		if m, ok := andRun(a, b, signed); ok {
+			if _, isC := new(big.Int).SetString(b, 10); isC {
+				r = fmt.Sprintf("(- %s %s)", a, m)
+				break
+			}
+		}
 		r = x.bitopInt("andnot", a, b, t, s)
 	default:
 		fail("integer op %s", op)
@@ -216,6 +251,33 @@ func maskBits(lit string) (int, bool) {
 	return w.BitLen() - 1, true
 }
 
+// andRun: one operand is a non-negative constant whose set bits form one run (2^k-1)<<j; the other
+// operand x is unsigned. Then x & m == ((x div 2^j) mod 2^k) * 2^j exactly.
+func andRun(a, b string, signed bool) (string, bool) {
+	if signed {
+		return "", false
+	}
+	x, c := a, b
+	v, ok := new(big.Int).SetString(b, 10)
+	if !ok {
+		v, ok = new(big.Int).SetString(a, 10)
+		x, c = b, a
+	}
+	_ = c
+	if !ok || v.Sign() <= 0 {
+		return "", false
+	}
+	j := v.TrailingZeroBits()
+	w := new(big.Int).Rsh(v, j)
+	k, ok := maskBits(w.String())
+	if !ok {
+		return "", false
+	}
+	pj := new(big.Int).Lsh(big.NewInt(1), j).String()
+	pk := new(big.Int).Lsh(big.NewInt(1), uint(k)).String()
+	return fmt.Sprintf("(* (mod (div %s %s) %s) %s)", x, pj, pk, pj), true
+}
+
 func (x *exec) bitopInt(op, a, b string, t types.Type, s *State) string {
 	// uninterpreted in Int mode, with range of the result type
 	fn := "bit" + op + "!" + sortKey(types.TypeString(t, nil))
@@ -224,6 +286,38 @@ func (x *exec) bitopInt(op, a, b string, t types.Type, s *State) string {
 	x.assume(s, x.c.Range(r, t))
 	x.note("arith int: bitwise %s is uninterpreted", op)
 	return r
+}
+
+// pow2Table defines pow2!tbl(n) = 2^n for 0 <= n < 64 (1 outside), used for machine shifts in arith int.
+func (x *exec) pow2Table() {
+	if x.c.has("pow2!tbl") {
+		return
+	}
+	body := "1"
+	for k := 63; k >= 1; k-- {
+		body = fmt.Sprintf("(ite (= n %d) %s %s)", k, new(big.Int).Lsh(big.NewInt(1), uint(k)).String(), body)
+	}
+	x.c.DefineFun("pow2!tbl", [][2]string{{"n", "Int"}}, "Int", body, false)
+}
+
+// pow2BigTable defines pow2!big(n) = 2^n for 0 <= n < MathBits (1 outside): shifts written in specifications.
+func (x *exec) pow2BigTable() {
+	if x.c.has("pow2!big") {
+		return
+	}
+	body := "1"
+	for k := MathBits - 1; k >= 1; k-- {
+		body = fmt.Sprintf("(ite (= n %d) %s %s)", k, new(big.Int).Lsh(big.NewInt(1), uint(k)).String(), body)
+	}
+	x.c.DefineFun("pow2!big", [][2]string{{"n", "Int"}}, "Int", body, false)
+}
+
+// bigvalSort is the sort of the ghost array holding *big.Int values.
+func (x *exec) bigvalSort() string {
+	if x.c.Mode == ModeBV {
+		return fmt.Sprintf("(Array Int (_ BitVec %d))", MathBits)
+	}
+	return "(Array Int Int)"
 }
 
 func (x *exec) intHelpers() {
@@ -270,18 +364,25 @@ func (x *exec) shift(fr *frame, s *State, op token.Token, a, b *Val, at, bt type
 			}
 			return x.mkVal(fmt.Sprintf("(div %s %s)", ta, p), at)
 		}
-		fn := "shift!" + op.String()
-		x.c.Fun("shl!int", []string{"Int", "Int"}, "Int")
-		x.c.Fun("shr!int", []string{"Int", "Int"}, "Int")
-		_ = fn
-		f := "shl!int"
-		if op == token.SHR {
-			f = "shr!int"
+		// non-constant count: 2^count through a 64-entry table; counts >= width shift everything out
+		x.pow2Table()
+		cnt := x.c.Let("shcnt", "Int", tb)
+		p := App("pow2!tbl", cnt)
+		big := fmt.Sprintf("(>= %s %d)", cnt, abits)
+		if op == token.SHL {
+			r := fmt.Sprintf("(* %s %s)", ta, p)
+			if x.claims("overflow") {
+				x.oblig(fr, s, "overflow", x.srcText(pos, "<<"), pos, And(Not(big), x.c.Range(r, at)), nil)
+				return x.mkVal(x.c.Let("sh", "Int", r), at)
+			}
+			return x.mkVal(x.c.Let("sh", "Int", Ite(big, "0", x.wrapInt(r, at))), at)
 		}
-		r := App(f, ta, tb)
-		x.assume(s, x.c.Range(r, at))
-		x.note("arith int: shift by a non-constant count is uninterpreted")
-		return x.mkVal(r, at)
+		// >>: floor division (arithmetic shift for negative operands)
+		full := "0"
+		if asigned {
+			full = Ite(fmt.Sprintf("(< %s 0)", ta), "(- 1)", "0")
+		}
+		return x.mkVal(x.c.Let("sh", "Int", Ite(big, full, fmt.Sprintf("(div %s %s)", ta, p))), at)
 	}
 	// BV mode: bring the count to the width of a
 	var cnt, big string
